@@ -15,7 +15,6 @@ theorem isNd_ascii {c : Nat} (h1 : 48 ≤ c) (h2 : c ≤ 57) : isNd c = true := 
   simp [h1, h2]
 
 theorem isNd_45 : isNd 45 = false := by decide +kernel
-theorem isNd_10 : isNd 10 = false := by decide +kernel
 
 /-! ### `dec` -/
 
@@ -147,14 +146,14 @@ theorem tailMatches_head {t : Str} (h : ∀ c, t.head? = some c → c ≠ 45) : 
 theorem tailMatches_second {a b : Nat} {r : Str} (h : b ≠ 45) : tailMatches (a :: b :: r) = false := by
   simp [tailMatches, h]
 
-theorem digitsThenEol_full (d : Str) (hd : d ≠ []) : digitsThenEol d d.length = true := by
+theorem digitsThenEnd_full (d : Str) (hd : d ≠ []) : digitsThenEnd d d.length = true := by
   cases d with
   | nil => exact absurd rfl hd
-  | cons c cs => simp [digitsThenEol, atEol]
+  | cons c cs => simp [digitsThenEnd, atEnd]
 
 theorem tailMatches_chain (d : Str) (hd : d ≠ []) (hn : ∀ c ∈ d, isNd c = true) :
     tailMatches (45 :: 45 :: d) = true := by
-  simp [tailMatches, takeWhile_all d hn, digitsThenEol_full d hd]
+  simp [tailMatches, takeWhile_all d hn, digitsThenEnd_full d hd]
 
 theorem tryDot_chain (a d : Str) (ha : a ≠ []) (hd : d ≠ []) (hn : ∀ c ∈ d, isNd c = true) :
     ∀ m, m ≤ 2 + d.length → tryDot (a ++ 45 :: 45 :: d) (a.length + m) = some a := by
@@ -203,34 +202,20 @@ theorem tryDot_chain (a d : Str) (ha : a ≠ []) (hd : d ≠ []) (hn : ∀ c ∈
     rw [h1, h2]
     simpa using ih (by omega)
 
-theorem no_lf_takeWhile (s : Str) (h : 10 ∉ s) : s.takeWhile (· != 10) = s := by
-  apply takeWhile_all
-  intro c hc
-  have : c ≠ 10 := fun e => h (e ▸ hc)
-  simpa using this
-
-/-- T1: a single-line, non-empty group 1 followed by `--<digits>` is recovered exactly –
-also when group 1 itself ends in a chaining suffix (the greedy `.+` takes the last one). -/
-theorem clordRoot_chain (a d : Str) (ha : a ≠ []) (hlf : 10 ∉ a) (hd : d ≠ [])
+/-- T1: a non-empty group 1 followed by `--<digits>` is recovered exactly – also when group 1
+itself ends in a chaining suffix (the greedy `.+` takes the last one) or contains line breaks. -/
+theorem clordRoot_chain (a d : Str) (ha : a ≠ []) (hd : d ≠ [])
     (hn : ∀ c ∈ d, isNd c = true) : clordRoot (a ++ [45, 45] ++ d) = a := by
   have hs : a ++ [45, 45] ++ d = a ++ 45 :: 45 :: d := by simp
-  have hno : 10 ∉ a ++ 45 :: 45 :: d := by
-    intro h
-    simp only [List.mem_append, List.mem_cons] at h
-    rcases h with h | h | h | h
-    · exact hlf h
-    · cases h
-    · cases h
-    · have := hn 10 h; rw [isNd_10] at this; cases this
   unfold clordRoot reMatchRoot
-  rw [hs, no_lf_takeWhile _ hno]
+  rw [hs]
   have hlen : (a ++ 45 :: 45 :: d).length = a.length + (2 + d.length) := by simp; omega
   rw [hlen, tryDot_chain a d ha hd hn _ (Nat.le_refl _)]
   rfl
 
-theorem clordRoot_chain_dec (root : Str) (k : Nat) (h0 : root ≠ []) (hlf : 10 ∉ root) :
+theorem clordRoot_chain_dec (root : Str) (k : Nat) (h0 : root ≠ []) :
     clordRoot (root ++ [45, 45] ++ dec k) = root :=
-  clordRoot_chain root (dec k) h0 hlf (dec_ne_nil k) (dec_isNd k)
+  clordRoot_chain root (dec k) h0 (dec_ne_nil k) (dec_isNd k)
 
 /-! soundness of a match: whatever `tryDot` returns is a genuine `<group 1>--<digits>$` split -/
 
@@ -248,14 +233,14 @@ theorem tryDot_sound (s : Str) : ∀ n g, tryDot s n = some g →
       exact ⟨n + 1, by omega, rfl, ht⟩
     · exact ih g h
 
-theorem digitsThenEol_sound (r : Str) : ∀ n, digitsThenEol r n = true →
-    ∃ j, 0 < j ∧ j ≤ n ∧ atEol (r.drop j) = true := by
+theorem digitsThenEnd_sound (r : Str) : ∀ n, digitsThenEnd r n = true →
+    ∃ j, 0 < j ∧ j ≤ n ∧ atEnd (r.drop j) = true := by
   intro n
   induction n with
-  | zero => intro h; simp [digitsThenEol] at h
+  | zero => intro h; simp [digitsThenEnd] at h
   | succ n ih =>
     intro h
-    rw [digitsThenEol, Bool.or_eq_true] at h
+    rw [digitsThenEnd, Bool.or_eq_true] at h
     rcases h with h | h
     · exact ⟨n + 1, by omega, Nat.le_refl _, h⟩
     · obtain ⟨j, h1, h2, h3⟩ := ih h
@@ -279,8 +264,8 @@ theorem take_of_le_takeWhile {p : Nat → Bool} (l : Str) (j : Nat) (h : j ≤ (
         · exact ih j (by omega) c hc
       · simp [ha] at h
 
-/-- a match on a text without line feed exhibits the chain form -/
-theorem reMatchRoot_chainForm (s g : Str) (hlf : 10 ∉ s) (h : reMatchRoot s = some g) :
+/-- a match exhibits the chain form -/
+theorem reMatchRoot_chainForm (s g : Str) (h : reMatchRoot s = some g) :
     ∃ d, d ≠ [] ∧ (∀ c ∈ d, isNd c = true) ∧ g ≠ [] ∧ s = g ++ [45, 45] ++ d := by
   unfold reMatchRoot at h
   obtain ⟨k, hk, hg, ht⟩ := tryDot_sound s _ g h
@@ -293,16 +278,11 @@ theorem reMatchRoot_chainForm (s g : Str) (hlf : 10 ∉ s) (h : reMatchRoot s = 
     simp only [tailMatches, Bool.and_eq_true, beq_iff_eq] at ht
     obtain ⟨⟨hx, hy⟩, hde⟩ := ht
     subst hx hy
-    obtain ⟨j, hj, hjle, heol⟩ := digitsThenEol_sound r _ hde
+    obtain ⟨j, hj, hjle, heol⟩ := digitsThenEnd_sound r _ hde
     have hr : r = r.take j ++ r.drop j := (List.take_append_drop j r).symm
     have hdrop : r.drop j = [] := by
       match hrd : r.drop j, heol with
       | [], _ => rfl
-      | c :: cs, heol =>
-        simp only [atEol, beq_iff_eq] at heol
-        subst heol
-        exfalso; apply hlf
-        rw [hsplit, hdk, hr, hrd]; simp
     have hrt : r = r.take j := by rw [hdrop, List.append_nil] at hr; exact hr
     have hjlen : j ≤ r.length := by
       have h1 : (r.takeWhile isNd).length ≤ r.length := (List.takeWhile_sublist isNd).length_le
@@ -320,21 +300,20 @@ theorem reMatchRoot_chainForm (s g : Str) (hlf : 10 ∉ s) (h : reMatchRoot s = 
       have : s = s.take k ++ 45 :: 45 :: r := by rw [← hdk]; exact hsplit
       simpa using this
 
-/-- T2: a single-line text that does not have the chain form is returned unchanged -/
-theorem clordRoot_bare (s : Str) (hlf : 10 ∉ s) (hc : ¬ ChainForm s) : clordRoot s = s := by
+/-- T2: a text that does not have the chain form is returned unchanged -/
+theorem clordRoot_bare (s : Str) (hc : ¬ ChainForm s) : clordRoot s = s := by
   unfold clordRoot
   cases h : reMatchRoot s with
   | none => rfl
   | some g =>
     exfalso; apply hc
-    obtain ⟨d, h1, h2, h3, h4⟩ := reMatchRoot_chainForm s g hlf h
+    obtain ⟨d, h1, h2, h3, h4⟩ := reMatchRoot_chainForm s g h
     exact ⟨g, d, h3, h1, h2, h4⟩
 
 /-- … and one that has it is cut (so `clordRoot s = s` characterises the roots without chain form) -/
-theorem clordRoot_cut (s : Str) (hlf : 10 ∉ s) (hc : ChainForm s) : clordRoot s ≠ s := by
+theorem clordRoot_cut (s : Str) (hc : ChainForm s) : clordRoot s ≠ s := by
   obtain ⟨a, d, ha, hd, hn, rfl⟩ := hc
-  have hlfa : 10 ∉ a := fun h => hlf (by simp [h])
-  rw [clordRoot_chain a d ha hlfa hd hn]
+  rw [clordRoot_chain a d ha hd hn]
   intro h
   have := congrArg List.length h
   simp at this
